@@ -145,6 +145,18 @@ func (w *writer) Delete(rs *segment.RewriteSegment) (*writer, *reader, error) {
 		return nwrt, nil, nil
 	}
 
+	// when the last message is deleted, a new empty segment keeps the next offset. Create it
+	// before replacing this segment, so stopping half-way never moves the next offset backwards
+	nextOffset, nextTime := w.index.getNext()
+	var tailWriter *writer
+	if rs.DeletedMessages[len(rs.DeletedMessages)-1].Offset == w.index.getLastOffset() {
+		wrt, err := openWriter(w.segment.NewAt(nextOffset), w.params, w.version, nextTime)
+		if err != nil {
+			return nil, nil, err
+		}
+		tailWriter = wrt
+	}
+
 	nseg := rs.GetNewSegment()
 	if nseg != w.segment {
 		// the starting offset of the new segment is different
@@ -157,11 +169,9 @@ func (w *writer) Delete(rs *segment.RewriteSegment) (*writer, *reader, error) {
 		}
 
 		// first move the replacement
-		nextOffset, nextTime := w.index.getNext()
-		if rs.DeletedMessages[len(rs.DeletedMessages)-1].Offset == w.index.getLastOffset() {
+		if tailWriter != nil {
 			rdr := openReader(nseg, w.params, w.version, false)
-			wrt, err := openWriter(w.segment.NewAt(nextOffset), w.params, w.version, nextTime)
-			return wrt, rdr, err
+			return tailWriter, rdr, nil
 		} else {
 			wrt, err := openWriter(nseg, w.params, w.version, nextTime)
 			return wrt, nil, err
@@ -172,11 +182,9 @@ func (w *writer) Delete(rs *segment.RewriteSegment) (*writer, *reader, error) {
 		return nil, nil, err
 	}
 
-	nextOffset, nextTime := w.index.getNext()
-	if rs.DeletedMessages[len(rs.DeletedMessages)-1].Offset == w.index.getLastOffset() {
+	if tailWriter != nil {
 		rdr := openReader(w.segment, w.params, w.version, false)
-		wrt, err := openWriter(w.segment.NewAt(nextOffset), w.params, w.version, nextTime)
-		return wrt, rdr, err
+		return tailWriter, rdr, nil
 	} else {
 		wrt, err := openWriter(w.segment, w.params, w.version, nextTime)
 		return wrt, nil, err
